@@ -117,6 +117,8 @@ type reloadRun struct {
 	dotted bool
 	nOps   int
 	nErr   int
+	// resumeShort: a resumed change stream delivered another number of events than the log holds behind the token
+	resumeShort string
 }
 
 func (x *reloadRun) call(f func() error) {
@@ -246,14 +248,40 @@ func (x *reloadRun) index() mongo.IndexModel {
 		o.SetPartialFilterExpression(bson.D{{Key: gen.Keys[r.N(len(gen.Keys))], Value: bson.D{{Key: "$exists", Value: true}}}})
 		x.tags["idx_partial"] = true
 	}
-	if r.P(25) {
-		s := []int32{0, 1, 3600, 2147483647}[r.N(4)]
+	if r.P(25) && len(keys) == 1 {
+		s := []int32{0, 1, 3600, 2147483647, 2147484, 2592000, 5184000, 1 << 29, 1 << 30}[r.N(9)]
 		o.SetExpireAfterSeconds(s)
 		x.tags[fmt.Sprintf("idx_ttl_%d", s)] = true
 	}
 	if r.P(35) {
 		o.SetName([]string{"custom", "n.a.m.e", "é", "_id_x", "x_1"}[r.N(5)])
 		x.tags["idx_named"] = true
+	}
+	if r.P(22) {
+		// option combinations: unique + TTL, unique + partial, TTL + partial, custom name + descending compound
+		o = options.Index()
+		f := gen.Keys[r.N(len(gen.Keys))]
+		keys = bson.D{{Key: f, Value: int32(1 - 2*r.N(2))}}
+		part := bson.D{{Key: gen.Keys[r.N(len(gen.Keys))], Value: bson.D{{Key: []string{"$gt", "$exists", "$lte"}[r.N(3)], Value: int32(1)}}}}
+		ttl := []int32{0, 3600, 2592000, 2147483647}[r.N(4)]
+		switch r.N(5) {
+		case 0:
+			o.SetUnique(true).SetExpireAfterSeconds(ttl)
+			x.tags["idx_combo_unique_ttl"] = true
+		case 1:
+			o.SetUnique(true).SetPartialFilterExpression(part)
+			x.tags["idx_combo_unique_partial"] = true
+		case 2:
+			o.SetExpireAfterSeconds(ttl).SetPartialFilterExpression(part)
+			x.tags["idx_combo_ttl_partial"] = true
+		case 3:
+			o.SetUnique(true).SetExpireAfterSeconds(ttl).SetPartialFilterExpression(part).SetName("all")
+			x.tags["idx_combo_all"] = true
+		default:
+			keys = bson.D{{Key: f, Value: int32(-1)}, {Key: f + "2", Value: int32(-1)}, {Key: "_id", Value: int32(-1)}}
+			o.SetName([]string{"desc", "d.e.s.c"}[r.N(2)]).SetUnique(r.P(50))
+			x.tags["idx_combo_named_desc_compound"] = true
+		}
 	}
 	return mongo.IndexModel{Keys: keys, Options: o}
 }
@@ -298,10 +326,22 @@ func (x *reloadRun) step() {
 		x.tags["create_collection"] = true
 		x.call(func() error { return c.Database().CreateCollection(ctx, c.Name()) })
 	case 18:
-		if r.P(50) {
+		switch k := r.N(100); {
+		case k < 35:
 			x.call(func() error { return c.Drop(ctx) })
-		} else {
+		case k < 60:
+			x.tags["drop_all_indexes"] = true
 			x.call(func() error { _, err := c.Indexes().DropAll(ctx); return err })
+		case k < 75:
+			// the _id index is never dropped, by name …
+			x.tags["drop_id_index"] = true
+			x.call(func() error { _, err := c.Indexes().DropOne(ctx, "_id_"); return err })
+		default:
+			// … or by a key specification equal to / starting with {_id: 1}
+			x.tags["drop_id_index_by_key"] = true
+			key := []bson.D{{{Key: "_id", Value: int32(1)}}, {{Key: "_id", Value: float64(1)}}, {{Key: "_id", Value: int64(1)}}, {{Key: "_id", Value: int32(-1)}},
+				{{Key: "_id", Value: int32(1)}, {Key: "a", Value: int32(1)}}, {{Key: "a", Value: int32(-1)}, {Key: "a2", Value: int32(-1)}, {Key: "_id", Value: int32(-1)}}}[r.N(6)]
+			x.call(func() error { _, err := c.Indexes().DropOneWithKey(ctx, key); return err })
 		}
 	default:
 		if r.P(15) {
@@ -310,6 +350,74 @@ func (x *reloadRun) step() {
 			x.call(func() error { _, err := c.DeleteMany(ctx, bson.D{}); return err })
 		}
 	}
+}
+
+// bulk: n small documents in one InsertMany and one UpdateMany over them (2n change events).
+func (x *reloadRun) bulk(n int) {
+	ctx := context.Background()
+	c := x.client.Database("d1").Collection("big")
+	docs := make([]interface{}, 0, n)
+	for i := 0; i < n; i++ {
+		docs = append(docs, bson.D{{Key: "_id", Value: int32(i)}, {Key: "n", Value: int32(i % 7)}})
+	}
+	x.call(func() error { _, err := c.InsertMany(ctx, docs); return err })
+	x.call(func() error {
+		_, err := c.UpdateMany(ctx, bson.D{}, bson.D{{Key: "$inc", Value: bson.D{{Key: "n", Value: int32(1)}}}, {Key: "$push", Value: bson.D{{Key: "l", Value: "x"}}}})
+		return err
+	})
+	x.call(func() error { _, err := c.DeleteMany(ctx, bson.D{{Key: "n", Value: int32(3)}}); return err })
+}
+
+// resumeFrom opens a client-wide change stream resumed after an old event of the log (the second
+// one, or one in the first tenth of a long log) and drains it without blocking. Returns the
+// delivered events and the position of the token (-1: log too short / watch refused).
+func (x *reloadRun) resumeFrom(cat *lungo.Catalog) (events string, at int) {
+	defer func() {
+		if p := recover(); p != nil {
+			events, at = "panic: "+fmt.Sprint(p), 0
+		}
+	}()
+	ns := cat.Namespaces[lungo.Oplog]
+	if ns == nil || len(ns.Documents.List) < 3 {
+		return "", -1
+	}
+	log := ns.Documents.List
+	at = 1
+	if len(log) > 50 {
+		at = len(log) / 10
+	}
+	token, ok := bsonkit.Get(log[at], "_id").(bson.D)
+	if !ok {
+		return "", -1
+	}
+	ctx := context.Background()
+	cs, err := x.client.Watch(ctx, mongo.Pipeline{}, options.ChangeStream().SetResumeAfter(token))
+	if err != nil {
+		return "watch error: " + err.Error(), at
+	}
+	defer cs.Close(ctx)
+	var sb strings.Builder
+	n := 0
+	for cs.TryNext(ctx) {
+		var ev bson.D
+		if err := cs.Decode(&ev); err != nil {
+			sb.WriteString("<decode error>")
+			break
+		}
+		sb.WriteString(vj.Enc(ev))
+		n++
+		if n > 5000 {
+			break
+		}
+	}
+	if err := cs.Err(); err != nil {
+		sb.WriteString(" err: " + err.Error())
+	}
+	want := len(log) - at - 1
+	if n != want {
+		x.resumeShort = fmt.Sprintf("%d events delivered, %d are behind the token (event %d of %d)", n, want, at, len(log))
+	}
+	return fmt.Sprintf("%d delivered, %d behind the token: %s", n, want, sb.String()), at
 }
 
 type probe struct {
@@ -411,11 +519,22 @@ func reloadExec(r *gen.R, useDotted bool, script func(x *reloadRun)) []run.Case 
 		script(x)
 	} else {
 		steps := 4 + r.N(24)
+		big := r.N(100) // 6 %: more than 100 change events, 1.5 %: more than 1000
 		for i := 0; i < steps; i++ {
 			x.step()
+			if i == steps/2 && big < 8 {
+				n := 120
+				if big < 2 {
+					n = 520
+					x.tags["oplog_over_1000"] = true
+				}
+				x.tags["oplog_over_100"] = true
+				x.bulk(n)
+			}
 		}
 	}
 	before := engine.Catalog()
+	resumeBefore, resumeAt := x.resumeFrom(before)
 	engine.Close()
 
 	var tags []string
@@ -465,7 +584,7 @@ func reloadExec(r *gen.R, useDotted bool, script func(x *reloadRun)) []run.Case 
 	fileBytes, ferr := os.ReadFile(path)
 
 	// reopen
-	_, engine2, err := open()
+	client2, engine2, err := open()
 	if err != nil {
 		w := "load-error"
 		if dotted {
@@ -532,6 +651,25 @@ func reloadExec(r *gen.R, useDotted bool, script func(x *reloadRun)) []run.Case 
 			}
 		}
 	}
+	// monitor 2b: a change stream resumed after an OLD event of the log delivers the same events before
+	// the close and after the reload (and as many as the log holds behind the token)
+	if resumeAt >= 0 {
+		x.client = client2
+		resumeAfter, _ := x.resumeFrom(after)
+		tags = append(tags, "resume_checked")
+		if x.resumeShort != "" {
+			v := viol("a resumed change stream does not deliver every event behind its token", "resume-incomplete", x.resumeShort)
+			v.Req = req
+			viols = append(viols, v)
+		}
+		if resumeAfter != resumeBefore {
+			v := viol("a change stream resumed after the same old event delivers other events after the reload", "resume-differs",
+				fmt.Sprintf("token of event %d; before %s\nafter %s", resumeAt, clip(resumeBefore, 500), clip(resumeAfter, 500)))
+			v.Req = req
+			viols = append(viols, v)
+		}
+	}
+
 	// monitor 3 (C15): every index of the catalog before Close and of the reloaded one holds exactly the
 	// documents of its collection within its partial filter, in key order (api_index.go)
 	for _, side := range []struct {
@@ -545,7 +683,11 @@ func reloadExec(r *gen.R, useDotted bool, script func(x *reloadRun)) []run.Case 
 				}
 			}()
 			for _, h := range sortedHandles(side.cat) {
-				for _, is := range indexIssues(side.cat.Namespaces[h]) {
+				issues := indexIssues(side.cat.Namespaces[h])
+				if is, bad := idIndexIssue(h, side.cat.Namespaces[h]); bad {
+					issues = append(issues, is)
+				}
+				for _, is := range issues {
 					viols = append(viols, run.Violation{Property: "C15", What: "an index does not hold exactly the documents of its collection (within its partial filter) in key order",
 						Witness: "index-incoherent:" + is.reason, Req: req, Detail: clip(h.String()+" "+side.name+": "+is.detail, 700)})
 				}
@@ -754,7 +896,9 @@ func init() {
 		Name: "reload",
 		Rule: "4-27 API calls (insert/update/upsert/replace/delete, CreateCollection, CreateOne with unique/partial(nil,{},filter)/expireAfterSeconds(0,1,3600,max)/compound/custom-name " +
 			"combinations, drops) over databases {d1,d2,a} x collections {c,e,c.d,b.c} and, in 12% of the cases, the dotted database a.b, on a FileStore in a temp dir; Close; reopen; " +
-			"compare dumps of every namespace (documents in order, index definitions, local.oplog) and duplicate probes; model: loadfile on the real bytes, storefile through the real Load; " +
+			"option combinations (unique+TTL, unique+partial, TTL+partial, all, named descending compound), large expireAfterSeconds (30/60 days, 2^29, 2^30, 2147484), drops of the _id index by name and by key specification, " +
+			"8% of the histories with more than 100 (2%: more than 1000) change events; " +
+			"compare dumps of every namespace (documents in order, index definitions, local.oplog), duplicate probes, a change stream resumed after an old event before and after the reload, index coherence and _id_ presence on both sides; model: loadfile on the real bytes, storefile through the real Load; " +
 			"non-trivial = the catalog holds a document or a secondary index",
 		Gen: func(r *gen.R, idx int) []run.Case { return reloadCase(r) },
 		Corpus: func() []run.Case {
